@@ -59,3 +59,13 @@ for d in sorted(glob.glob(os.path.join(here, "seeded_refactor", "*"))):
         if not m or m.group(2) != "0" or any("VIOLATION" in x for x in lines):
             alarms += 1
     print("| %s | %s | %s | %s |" % (os.path.basename(d), ", ".join(files), ", ".join(runs), alarms or "none"))
+
+print()
+print("### 10.5 Mechanical single-token mutants of the algorithm kernels (tools_sweep.py; suite-passing mutants only)\n")
+print("| file:line | mutation | caught by | first failing input reported |")
+print("|---|---|---|---|")
+for fp in sorted(glob.glob(os.path.join(here, "seeded_sweep", "*.jsonl"))):
+    for l in open(fp):
+        r = json.loads(l)
+        print("| %s:%s | `%s` -> `%s` | %s | `%s` |" % (r["file"], r["line"], r["old"].strip()[:60].replace("|", "/"), r["new"].strip()[:60].replace("|", "/"),
+              ("`./check %s`" % r["caught_by"]) if r.get("status") == "caught" else "**survived**", (r.get("replay_case") or "-")[:90]))
